@@ -55,6 +55,7 @@ type c39sc struct {
 	hookPanicAt int  // OnChildSpawn's i-th call panics (-1: never)
 	reuseport   bool // no listener is bound by the master
 	exits       int // self exits the script produces (-1: unbounded)
+	pattern     string
 }
 
 // expectReturn: an injected fault ends the master whatever the children do.
@@ -554,7 +555,7 @@ func c39mk(kind string, procs, thr int, ri time.Duration, pattern, term string, 
 	if ri != 0 {
 		riName = "ri" + ri.String()
 	}
-	sc := &c39sc{procs: procs, thr: thr, ri: ri, grace: c39grace1s, children: ch, def: def, exits: exits, hookFailAt: -1, prodFaultAt: -1, hookPanicAt: -1}
+	sc := &c39sc{procs: procs, thr: thr, ri: ri, grace: c39grace1s, children: ch, def: def, exits: exits, pattern: pattern, hookFailAt: -1, prodFaultAt: -1, hookPanicAt: -1}
 	sc.name = fmt.Sprintf("procs%d/thr%d/%s/%s/term-%s", procs, thr, riName, pattern, term)
 	if kind != "" {
 		sc.name += "/" + kind
@@ -589,10 +590,19 @@ func c39scenarios(r *vrt.R) []*c39sc {
 					if exits > thr+1 && pat != "together" && pat != "stagger" {
 						continue // the pattern's tail is never reached: same as a shorter pattern
 					}
-					if pat == "crashloop" && procs >= 2 && (thr == 0 || !r.Thorough()) {
-						continue // thr 0: identical to "together"; otherwise covered by the finite patterns, the loop is thorough-only
+					if pat == "crashloop" && procs >= 2 && (thr != 1 || !r.Thorough()) {
+						continue // thr 0: identical to "together"; otherwise covered by the finite patterns; thr 1 is run in the thorough tier
 					}
 					for _, term := range tt {
+						if (pat == "together" || pat == "three" || pat == "crashloop") && ri != 0 && term != "ignore" && len(tt) > 1 && !r.Thorough() {
+							continue // quick tier: the heaviest scripts with RecoverInterval>0 only with the SIGKILL teardown
+						}
+						if pat == "crashloop" && procs >= 2 && term == "slow" {
+							continue
+						}
+						if !r.Thorough() && ((pat == "together" && thr == 1 && term == "slow") || (pat == "together" && thr == 2 && ri == 0) || (pat == "three" && ri == 0 && term != "ignore")) {
+							continue // quick tier: thinned out, the thorough tier runs the full product
+						}
 						add(c39mk("", procs, thr, ri, pat, term, nil))
 					}
 				}
@@ -616,6 +626,9 @@ func c39scenarios(r *vrt.R) []*c39sc {
 				}
 				for _, term := range []string{"exit", "mixed"} {
 					i := i
+					if thr == 2 && procs >= 2 && term == "exit" && !r.Thorough() {
+						continue
+					}
 					add(c39mk(fmt.Sprintf("spawn-failure-at-%d", i), procs, thr, time.Duration(i%2)*time.Second, pat, term, func(sc *c39sc) { sc.children[i].StartErr = c39errStart }))
 					add(c39mk(fmt.Sprintf("spawn-hook-error-at-%d", i), procs, thr, time.Duration((i+1)%2)*time.Second, pat, term, func(sc *c39sc) { sc.hookFailAt = i }))
 				}
@@ -658,23 +671,33 @@ func c39scenarios(r *vrt.R) []*c39sc {
 	// G: the kernel may recycle the pid of a reaped child (environment deviation)
 	for _, ri := range ris {
 		for _, pat := range []string{"together", "stagger"} {
+			if pat == "together" && !r.Thorough() {
+				continue
+			}
 			add(c39mk("pid-reuse", 2, 1, ri, pat, "ignore", func(sc *c39sc) { sc.pidReuse = true }))
 		}
 	}
-	add(c39mk("pid-reuse", 2, 2, 0, "together", "ignore", func(sc *c39sc) { sc.pidReuse = true }))
+	if r.Thorough() {
+		add(c39mk("pid-reuse", 2, 2, 0, "together", "ignore", func(sc *c39sc) { sc.pidReuse = true }))
+	}
 	add(c39mk("pid-reuse", 2, 2, time.Second, "three", "ignore", func(sc *c39sc) { sc.pidReuse = true }))
 	if r.Thorough() {
-		// one more processor (one deviation less)
+		// one more processor
 		for _, thr := range []int{0, 1} {
 			for _, pat := range []string{"together", "stagger"} {
-				add(c39mk("", 3, thr, time.Second, pat, "mixed", func(sc *c39sc) { sc.boundDelta = -1 }))
+				add(c39mk("", 3, thr, time.Second, pat, "mixed", func(sc *c39sc) {
+					if pat == "together" && thr == 1 {
+						sc.boundDelta = -1
+					}
+				}))
 			}
 		}
-	}
-	if r.Thorough() {
-		// single-child fleets are small enough for one more deviation
+		// more deviations where the state space allows: +2 for single-child fleets, +1 for the light two-child scripts
 		for _, sc := range out {
-			if sc.procs == 1 {
+			switch {
+			case sc.procs == 1:
+				sc.boundDelta = 2
+			case sc.procs == 2 && c39patternCost[sc.pattern] <= 3 && !sc.pidReuse:
 				sc.boundDelta = 1
 			}
 		}
@@ -775,6 +798,7 @@ func TestVerif_C39(t *testing.T) {
 		"this version of prefork has no external shutdown (no signal handling, the supervision loop only ends through the listed ways out), so none is modelled")
 	bound := 2 // thorough: +1 for GOMAXPROCS=1, the crash-loop scripts for GOMAXPROCS=2 and a GOMAXPROCS=3 fleet are added
 	var scs []mcx.Scenario
+	weights := map[string]float64{}
 	only := os.Getenv("VERIF_C39_ONLY") // development aid: restrict to scenarios whose name contains the value
 	for _, sc := range c39scenarios(r) {
 		if only != "" && !strings.Contains(sc.name, only) {
@@ -784,6 +808,7 @@ func TestVerif_C39(t *testing.T) {
 		if v := os.Getenv("VERIF_C39_BOUND"); v != "" {
 			fmt.Sscan(v, &b)
 		}
+		weights[sc.name] = c39weight(sc, b)
 		scs = append(scs, mcx.Scenario{Name: sc.name, Cfg: mcrt.Config{Bound: b, Horizon: 3000, TimerFirst: true}, Body: c39body(sc, b+1), Check: c39check(sc)})
 	}
 	for _, die := range []time.Duration{0, 700 * time.Millisecond, time.Second} {
@@ -793,28 +818,31 @@ func TestVerif_C39(t *testing.T) {
 		}
 		scs = append(scs, mcx.Scenario{Name: name, Cfg: mcrt.Config{Bound: bound, Horizon: 3000, TimerFirst: true}, Body: c39watchBody(die, bound+1), Check: c39watchCheck(die)})
 	}
-	// balance the static sharding (scenario i goes to worker i mod n): interleave expensive and cheap ones
-	sort.SliceStable(scs, func(i, j int) bool { return c39weight(scs[i].Name) > c39weight(scs[j].Name) })
+	// Static sharding (scenario i goes to worker i mod n, in order): cheap scenarios first, so that a time cap can only
+	// cut the most expensive ones, and every worker gets its share of those.
+	sort.SliceStable(scs, func(i, j int) bool { return weights[scs[i].Name] < weights[scs[j].Name] })
 	r.Set("deviation_bound", fmt.Sprint(bound))
 	r.Set("scenarios", len(scs))
 	mcx.Run(r, scs)
 }
 
-func c39weight(name string) int {
-	w := 1
-	if strings.Contains(name, "procs2") {
-		w *= 4
+// c39patternCost: relative size of the schedule space of a script (measured), for ordering and for choosing bounds.
+var c39patternCost = map[string]int{"none": 1, "first": 2, "instant": 2, "replacement": 3, "exit-in-grace": 3, "stagger": 10, "three": 30, "together": 50, "crashloop": 400}
+
+func c39weight(sc *c39sc, bound int) float64 {
+	w := float64(c39patternCost[sc.pattern])
+	switch sc.procs {
+	case 1:
+		w *= 0.02
+	case 3:
+		w *= 8
 	}
-	if strings.Contains(name, "procs3") {
-		w *= 12
+	w *= float64(1 + sc.thr)
+	for i := 2; i < bound; i++ {
+		w *= 20
 	}
-	if strings.Contains(name, "thr2") {
-		w *= 3
-	} else if strings.Contains(name, "thr1") {
-		w *= 2
-	}
-	if strings.Contains(name, "crashloop") {
-		w *= 2
+	for i := bound; i < 2; i++ {
+		w /= 20
 	}
 	return w
 }
